@@ -16,7 +16,7 @@ CLAIMED = {
          "max_dispatch_interval as a time limit not exercised; equal heap deadlines excluded when callbacks have side effects", G, "6/C03"),
  "C10": ("EventCore", "model_checking",
          "Finalizer/once-event life-cycle in the TLA+ model; histories with event_finalize/event_free_finalize/event_free/event_base_once and event_base_free (with and without finalizers) at every point, incl. from inside callbacks, replayed on the ASan build with every finalizer/callback invocation compared.",
-         "events and once-events only (bufferevents: C19, listeners: C44); leak clauses are sanitizer side conditions", G, "6/C10"),
+         "events and once-events only (bufferevents: C19, listeners: C44); memory / descriptor balance measured per scenario through the allocator hooks and the fd table", G, "6/C10"),
  "C45": ("EventCore", "model_checking",
          "Watcher phases are actions of the loop model; histories creating/freeing watchers (self/next/previous/new from inside watcher callbacks) replayed on the ASan build: which watcher ran, order relative to wait and callbacks, and the timeout reported to prepare watchers are compared.",
          "3 watcher slots; a watcher created inside a same-kind watcher callback runs in that iteration (code behaviour)", G, "6/C45"),
